@@ -15,12 +15,13 @@ variable {Id Hsh : Type}
 contents ever offered to `Put`:
 * no other byte string has the hash of an offered content (SHA-256 idealised as collision free on
   the contents that occur);
-* an index entry has a fixed length, parses back to what was encoded, and the empty file does not parse
-  (these are `fmtEntry_length`, `parse_fmt` of group `cache`, C05). -/
+* the index entry of an offered content has the fixed length, parses back to what was encoded, and the
+  empty file does not parse (these are `fmtEntry_length`, `parse_fmt` of group `cache`, C05, for sizes and
+  times below 10^20 resp. 2^63). -/
 structure Hyps (P : Params Id Hsh) (offered : Bytes → Prop) : Prop where
   noColl : ∀ c x, offered c → P.H x = P.H c → x = c
-  encLen : ∀ id out size t, (P.enc id out size t).length = Gen.CachePut.entrySize
-  parseEnc : ∀ id out size t, P.parse id (P.enc id out size t) = some ⟨out, size⟩
+  encLen : ∀ id c t, offered c → (P.enc id (P.H c) c.length t).length = Gen.CachePut.entrySize
+  parseEnc : ∀ id c t, offered c → P.parse id (P.enc id (P.H c) c.length t) = some ⟨P.H c, c.length⟩
   parseNil : ∀ id, P.parse id [] = none
 
 /-! ## the invariant of the directory -/
